@@ -122,7 +122,7 @@ func (e *Enc) mapLookup(in *ssa.Lookup, st *State) bool {
 	m := e.val(in.X).c[0]
 	k := e.val(in.Index).c[0]
 	has := e.mapHas(st, mi, m, k)
-	got := e.mapGet(st, mi, m, k)
+	got := e.wfLoaded(e.mapGet(st, mi, m, k))
 	zero := zeroVal(mi.vt)
 	out := &Val{typ: in.Type()}
 	for j := range got.c {
